@@ -76,8 +76,20 @@ class VLoop(asyncio.BaseEventLoop):
     # ---- endpoints -----------------------------------------------------------------------
     async def create_datagram_endpoint(self, protocol_factory, local_addr=None, remote_addr=None, **kw):
         w = self.world
+        outcome = w.next_connect_outcome()      # opening a connected UDP socket can fail too (resolution, routing)
+        if outcome != "ok":
+            w.connect_attempts.append((self.vtime, outcome))
         for _ in range(w.connect_latency):
             await asyncio.sleep(0)
+        if outcome == "unreachable":
+            raise OSError(_errno.ENETUNREACH, "Network is unreachable")
+        if outcome == "hostunreach":
+            raise OSError(_errno.EHOSTUNREACH, "No route to host")
+        if outcome == "gaierror":
+            import socket as _socket
+            raise _socket.gaierror(-2, "Name or service not known")
+        if outcome == "multiple":
+            raise OSError("Multiple exceptions: [Errno 101] Network is unreachable, [Errno 113] No route to host")
         protocol = protocol_factory()
         waiter = self.create_future()
         transport = FakeUdpTransport(self, w, protocol, remote_addr, waiter)
